@@ -1,6 +1,7 @@
 """C02 -- abrupt worker death is always detected and fails the pool loudly."""
 from ..rules import liveness as L
 from ..rules import broken as B
+from ..rules import process as P
 
 EXPLANATION = (
     "Static analysis. Decides: completeness of the manager's wait set (result reader, wake-up reader, the sentinel of "
@@ -23,6 +24,7 @@ def run(e, R, tier):
         B.r_exc_types,
         B.r_kill_tree,
         B.r_worker_unpickle,
+        P.r_exitcode,
         L.r_wake,
         L.r_own_resolve,
         L.r_drop_resolves,
